@@ -69,6 +69,12 @@ def periodic_axis(cls, shape, org):
     return cand[(sum(int(n) for n in shape) + int(org)) % len(cand)]
 
 
+def axis_sign_patterns(d, with_zero=True):
+    """All assignments of a sign (+, -, and optionally 0) to the d velocity components: flows that go forward along
+    one axis and backward (or not at all) along another."""
+    return list(itertools.product((1.0, -1.0, 0.0) if with_zero else (1.0, -1.0), repeat=d))
+
+
 def has_radial(cls):
     return AXES[cls][0] == "rad"
 
